@@ -185,6 +185,17 @@ def gen_shape(source, chain):
     lines.append("        Term::Cnt => { let p = build!(); format!(\"N:{}\", p.count()) }")
     lines.append("        Term::Fe => { let p = build!(); p.for_each(mk_each(c.pid)); \"U\".to_string() }")
     lines.append("        Term::Red(o) => { let p = build!(); r_opt(%s) }" % red)
+    if t == "val":
+        lines.append("        Term::Sum => { let p = build!(); r_opt(Some(p.map(|x| W64(x)).sum().0)) }")
+        lines.append("        Term::Fold(id, o) => { let p = build!(); let id = *id; r_opt(Some(p.fold(move || id, mk_red(c.pid, *o)))) }")
+    else:
+        lines.append("        Term::Sum | Term::Fold(_, _) => \"unsupported\".to_string(),")
+    lines.append("        Term::Min => { let p = build!(); r_opt(p.min().map(|x| x.v())) }")
+    lines.append("        Term::Max => { let p = build!(); r_opt(p.max().map(|x| x.v())) }")
+    lines.append("        Term::MinBy => { let p = build!(); r_opt(p.min_by(|a, b| a.v().cmp(&b.v())).map(|x| x.v())) }")
+    lines.append("        Term::MaxBy => { let p = build!(); r_opt(p.max_by(|a, b| a.v().cmp(&b.v())).map(|x| x.v())) }")
+    lines.append("        Term::MinKey(m) => { let p = build!(); let m = *m; r_opt(p.min_by_key(move |x| x.v().rem_euclid(m)).map(|x| x.v())) }")
+    lines.append("        Term::MaxKey(m) => { let p = build!(); let m = *m; r_opt(p.max_by_key(move |x| x.v().rem_euclid(m)).map(|x| x.v())) }")
     lines.append("        Term::Find(q) => { let p = build!(); r_opt(p.find(mk_fil(c.pid, *q)).map(|x| x.v())) }")
     lines.append("        Term::FindIx(q) => { let _ = q; %s }" % (("{ let p = build!(); %s }" % findix) if has_ix else findix))
     lines.append("        Term::First => { let p = build!(); r_opt(p.first().map(|x| x.v())) }")
